@@ -1037,7 +1037,7 @@ fn gen_case(r: &mut Prng, prop: &str, n: u64, out: &mut Out) -> (String, String,
         7 => (r.range(1, 4), false),
         _ => (r.range(5, 40), false),
     };
-    let (len, bulk) = if prop == "C19" && bulk { (r.range(270, 300), true) } else { (len, bulk) };
+    let (len, bulk) = if prop == "C19" && bulk { (r.range(270, 300), true) } else if prop == "C19" && shape == 4 { (r.range(0, 6), false) } else { (len, bulk) };
     // "fill" histories: 255 live mounts, so that allocation fails, then a vacancy is made and found
     let fill = prop != "C19" && shape == 2;
     let len = if fill { r.range(300, 360) } else { len };
@@ -1072,6 +1072,22 @@ fn gen_case(r: &mut Prng, prop: &str, n: u64, out: &mut Out) -> (String, String,
             run.exec(&st);
             let (u, gi) = (g.id(), g.id());
             run.exec(&format!("r:lookup:{}:{}:1:{}::", u, gi, hex(format!("z{}", k).as_bytes())));
+        }
+    }
+    // C19 "wrapped cursor" histories: few live mounts, the 8-bit index allocator driven around by
+    // mount/umount cycles on a scratch path, so that at save time live mounts sit above the cursor
+    if prop == "C19" && shape == 4 {
+        let cycles = g.r.range(250, 300);
+        let keep_at = [g.r.below(cycles), g.r.below(cycles), g.r.below(cycles)];
+        for c in 0..cycles {
+            g.next_bk += 1;
+            let (bk, u, gi) = (g.next_bk, g.id(), g.id());
+            if let Some(j) = keep_at.iter().position(|x| *x == c) {
+                run.exec(&format!("m:/keep{}:{}:-:1/{}/{}/100000:0", j, bk, u, gi));
+            } else {
+                run.exec(&format!("m:/scr:{}:-:1/{}/{}/100000:0", bk, u, gi));
+                run.exec("u:/scr");
+            }
         }
     }
     // C19 "evicted tail" histories: with remove_pseudo_root the newest pseudo directory is evicted
